@@ -88,6 +88,16 @@ Proof.
     split; [apply (sh_le _ _ _ S) | apply (sh_other _ _ _ S)].
 Qed.
 
+
+Lemma listing_keeps_good_lemma : forall content c be t ord i d,
+  is_cacheable t = true -> BeHonest content be ->
+  find (t, i) (files c) = Some d -> find (t, i) be = Some d ->
+  find (t, i) (files (cch (snd (cb_list (mkst c be) t ord)))) = Some d.
+Proof.
+  intros content c be t ord i d G HB F Fb. unfold cb_list. cbn [cch bke fst snd].
+  rewrite guard_list_is_cacheable, G. eapply list_keeps_good; eauto using early_exit_false.
+Qed.
+
 Lemma list_then_read_transparent_lemma : forall content c be t ord ops,
   is_cacheable t = true -> BeHonest content be -> CacheFaulty content c ->
   Forall (op_honest content) ops ->
